@@ -475,3 +475,7 @@ mod tests {
         assert_eq!(err, "invalid format option provided: yaml");
     }
 }
+
+#[cfg(feature = "pendulum_project_ntpd_rs_verif")]
+#[path = "/verif/hooks/ntpd/ctl.rs"]
+pub mod vh_ctl;
